@@ -94,7 +94,8 @@ def bigsum(body, n, dt=None):
     f = core.to_float(e)
     if f.special: raise NeedsContract('sum over possibly non-finite values')
     cache = {}
-    v = z3.simplify(f.v)
+    from . import itelift
+    v = itelift.canon(f.v)      # indicator summands in one canonical form (code side and specification side alike)
     parts = _split(v, cache)
     groups = {}
     for co, facs in parts:
@@ -102,7 +103,7 @@ def bigsum(body, n, dt=None):
             key = ('const',); mono = None
         else:
             facs = sorted(facs, key=lambda t: t.sexpr())
-            mono = z3.simplify(z3.Product(*facs)) if len(facs) > 1 else facs[0]
+            mono = itelift.orient_eq(z3.simplify(z3.Product(*facs))) if len(facs) > 1 else facs[0]
             key = mono.sexpr()
         g = groups.setdefault(key, [mono, []]); g[1].append(_real(co))
     total = None
